@@ -64,8 +64,11 @@ func (v *Voting[_, _]) outcomeIndex(numRequiredVotes int) (int, bool) {
 	for _, vote := range v.Votes {
 		numVotes[vote]++
 	}
-	for index, votes := range numVotes {
-		if votes >= numRequiredVotes {
+	// Iterate over the candidates in order instead of ranging over the map: if more than one
+	// candidate has reached the quorum the result must not depend on map iteration order,
+	// otherwise shuttermint replicas diverge.
+	for index := range v.Candidates {
+		if votes, ok := numVotes[index]; ok && votes >= numRequiredVotes {
 			return index, true
 		}
 	}
